@@ -270,6 +270,10 @@ func EnsureInterface(in interface{}, err error) (interface{}, error) {
 		return in, err
 	}
 	if v, ok := in.(reflect.Value); ok {
+		// maps are kept in the reference list behind a pointer: a reference to one is the map itself
+		if v.Kind() == reflect.Ptr && v.Elem().Kind() == reflect.Map {
+			v = v.Elem()
+		}
 		in = v.Interface()
 	}
 	if v, ok := in.(*_refHolder); ok {
